@@ -676,7 +676,7 @@ fn main() {
     eng.assume("a buffer 'as an editor holds it' = one layer with every cell set, ice_mode Blink or Ice, fonts in slots 0 and 1, SaveOptions::new() + lossles_output + compress/save_sauce per case");
     eng.assume("fuzz parts: IDF files expanding to more than 400 rows and Tundra files jumping beyond row 400 are discarded (size-driven work belongs to C02/C03)");
 
-    let q = 15_000;
+    let q = 20_000;
     let t = 150_000;
     let cls = |m: &Model| m.fmt.ext().to_string();
     eng.generated_min(PartCfg::new("xb", q, t), || model::xb_models(false), check_model, cls, model::simpler);
@@ -685,7 +685,7 @@ fn main() {
     eng.generated_min(PartCfg::new("idf", q, t), || model::idf_models(false), check_model, cls, model::simpler);
     eng.generated_min(PartCfg::new("tnd", q, t), || model::tnd_models(false), check_model, cls, model::simpler);
 
-    let fq = 12_000;
+    let fq = 16_000;
     let ft = 200_000;
     let fcls = |c: &FuzzCase| c.base.fmt.ext().to_string();
     eng.generated_min(PartCfg::new("xb_fuzz", fq, ft), || fuzz_cases(model::xb_models(true)), check_fuzz, fcls, simpler_fuzz);
